@@ -179,6 +179,9 @@ def run_case(idx, rng, P, rep):
                         rep.count('nested_links')
         targets.append((_st['EmptyTgt'] if rng.random() < 0.25 else Tgt)(**kw))
     desc = dict(targets=ntg)
+    deliveries = []      # (target index, parameter) announced to a watcher that wants every assignment
+    for ti_, t_ in enumerate(targets):
+        t_.param.watch(lambda *evs, ti_=ti_: deliveries.extend((ti_, e.name) for e in evs), ['x', 'y', 'z', 'l', 'd'], onlychanged=False)
     steps = []
     flags = dict(multi=any(len(lk) >= 2 for lk in links), relink_then_update=False, pending=False)
     raised_last = set()      # (src index, pname) whose most recent assignment raised out of the setter
@@ -255,7 +258,17 @@ def run_case(idx, rng, P, rep):
             rep.count('source_updates')
             try:
                 unchanged = getattr(srcs[si], pn) == v
+                n_deliv = len(deliveries)
                 setattr(srcs[si], pn, v)
+                # one source assignment reaches each linked parameter at most once
+                seen_once = set()
+                for dk in deliveries[n_deliv:]:
+                    if dk in seen_once:
+                        viol('linked-parameter-assigned-twice-by-one-source-update', f'source{si}.{pn} = {v!r}: target{dk[0]}.{dk[1]} was assigned '
+                             f'{deliveries[n_deliv:].count(dk)} times')
+                        break
+                    seen_once.add(dk)
+                rep.count('delivery_count_checks')
                 if not unchanged:
                     raised_last.discard((si, pn))
             except (ValueError, ZeroDivisionError) as e:
